@@ -57,3 +57,4 @@ Proof.
   exact (big_pred_inv (bank_cost mul 1024 1024) (bank_cost mul 2048 2048) (bank_cost mul 4096 4096)
            (bank_cost mul 1024 2047) (bank_cost mul 1024 2048) (bank_cost mul 256 16384) big_ok_true).
 Qed.
+Print Assumptions bank_big.
